@@ -70,6 +70,15 @@ Proof.
 Qed.
 Print Assumptions C07_seed_deterministic.
 
+(* "The state must be seeded so that it is not everywhere zero" (xoshiro256ss.h): for EVERY seed the
+   seeded state differs from the all-zero state, which is the fixed point of operator() and would make
+   the generator emit 0 forever (see C07_zero_state_is_stuck); splitmix64's output function is injective at 0 *)
+Theorem C07_seeded_engine_never_stuck : forall old s, seed_engine old s <> zero_state.
+Proof.
+  intros old s E. destruct (seed_engine_not_zero old s) as [H|H]; apply H; rewrite E; reflexivity.
+Qed.
+Print Assumptions C07_seeded_engine_never_stuck.
+
 (* FULL STATEMENT WANTED (property C07, first sentence): two executions of the
    same search with the same seed, problem, data and parameters produce the
    same draws, populations, best individual and summary.
@@ -100,6 +109,8 @@ Proof. vm_compute. reflexivity. Qed.
 Example C07_codec_extremes :
   show_u 0 = [48] /\ read_u (show_u (M64 - 1)) = RdOk (M64 - 1) [] /\ read_u (show_u (M64 - 1) ++ [48]) = RdFail (M64 - 1).
 Proof. vm_compute. repeat split. Qed.
+Example C07_zero_state_is_stuck : next zero_state = (0, zero_state).
+Proof. reflexivity. Qed.
 (* the model is the real generator: first outputs of the default-seeded engine *)
 Example C07_known_answer : outputs 2 (new_engine 1) = outputs 2 (seed_engine (new_engine 7) 1) /\
   length (outputs 5 (new_engine 0)) = 5%nat.
